@@ -196,8 +196,9 @@ CLAIMS = {
          "degree < k is a spline with ALL derivatives (C15_polynomials_are_splines); a system with no zero pivot has "
          "exactly one solution (C15_solver_complete); therefore a spline solved on data from a polynomial of degree < "
          "k (values at interior sites, prescribed derivatives at end sites) equals it with all derivatives everywhere "
-         "in the domain, knots and both end points included (C15_polynomial_reproduction; least-squares branch with full "
-         "column rank: C15_polynomial_reproduction_lsq). DERIVATIVES / DUAL "
+         "in the domain, knots and both end points included (C15_polynomial_reproduction; from uniqueness of the interpolation "
+         "problem alone: C15_polynomial_reproduction_unique; least-squares branch with full column rank: "
+         "C15_polynomial_reproduction_lsq). DERIVATIVES / DUAL "
          "ABSCISSAE: the order-(m+1) evaluation is the one-sided derivative of the order-m evaluation "
          "(C15_spline_derivative, C15_spline_derivative_right_end); at a dual abscissa value = plain evaluation, "
          "sensitivities S'(x) dx and S'(x) 1/2 d2x + 1/2 S''(x) dx dx (C15_dual_abscissa, C15_dual2_abscissa); with "
